@@ -192,7 +192,9 @@ MODFILE = {'sort_verif.rs': 'sort', 'wand_verif.rs': 'wand', 'aggs_verif.rs': 'a
            'score_functions_verif.rs': 'score_functions', 'ffi_verif.rs': 'ffi'}
 
 
-def run_kani_units(kids, tier):
+def run_kani_units(kids, tier, filters=None):
+    """filters: optional {unit: [harness-name prefixes]} restricting which harnesses of a unit serve this property"""
+    filters = filters or {}
     prepare_gen()
     results = {}
     by_crate = {}
@@ -204,7 +206,7 @@ def run_kani_units(kids, tier):
         if crate == 'searchlite-ffi':
             ok, cause, rlog, funcs = gen_ffi_slice()
             pre = dict(ok=ok, cause=cause, rewrite_log=rlog, functions=funcs)
-        prefixes = [p for k in ks for p in UNITS[k]['prefixes']]
+        prefixes = [p for k in ks for p in (filters.get(k) or UNITS[k]['prefixes'])]
         if pre and not pre['ok']:
             run = dict(cmd='', out='', rc=2, wall_s=0)
             parsed = {}
@@ -223,7 +225,7 @@ def run_kani_units(kids, tier):
                 res['cause'] = pre['cause']
                 results[k] = res
                 continue
-            exp = expected_harnesses(u['prefixes'])
+            exp = expected_harnesses(filters.get(k) or u['prefixes'])
             if not exp:
                 res['state'] = 'undecided'
                 res['cause'] = 'vacuous: no harnesses found for %s' % k
